@@ -28,6 +28,9 @@ THEOREMS = [
     "RedunModel.C02.tableProg_cfp",
     "RedunModel.C02.tableProg_worldFree",
     "RedunModel.C02.full_validity_table",
+    "RedunModel.C02.full_validity_catch_partial",
+    "RedunModel.C02.cached_eq_fresh_catch_partial",
+    "RedunModel.CacheHist.eval_soundC",
     "RedunModel.C02.refuted_catch",
     "RedunModel.C02.refuted_simple_expr",
     "RedunModel.C02.refuted_cse_twin",
@@ -77,12 +80,15 @@ LEVEL_TEXT = ("Proved in Lean for ALL programs (arbitrary body table keyed by ta
               "preserved by every evaluation step (`eval_sound`, `cacheSound_preserved`), hence every execution returns the "
               "denotation under the current code (`full_validity`) = the result on an empty backend (`cached_eq_fresh`, "
               "`fresh_den`, `den_det`) - full strength for programs without catch's private cache (catch-free, or the reference "
-              "design noCatchCache) and with shallow tasks only over world-independent bodies; `tableProg_*` discharge the hypotheses "
+              "design noCatchCache) and with shallow tasks only over world-independent bodies; with catch's private cache AS IMPLEMENTED "
+              "the same holds for histories without shallow tasks as long as every caught expression whose recovery is cached still "
+              "raises its class under the current code (`full_validity_catch_partial`, `cached_eq_fresh_catch_partial`: the stale "
+              "recovery is the only way catch's cache goes wrong); `tableProg_*` discharge the hypotheses "
               "for the generated workflow family (`full_validity_table`). `refuted_catch` is the closed witness of DESIGN F1 on the "
               "model of the current code (known finding); `refuted_simple_expr`, `refuted_cse_twin` are the witnesses of the two "
               "repaired defects on the model of the code as found. Tie: generated histories on the real scheduler vs the model "
               "(outcome + exact call sequence) and vs a fresh backend.")
-LEVEL_NOTE = ("partial: catch's private caching is outside the full theorem (refuted as implemented); the theorems speak of the sequential "
+LEVEL_NOTE = ("partial: catch's private caching is covered only under the hypothesis CatchStill (refuted without it); the theorems speak of the sequential "
               "depth-first evaluation order (the real scheduler is driven into that order; schedule independence is C07); termination "
               "is not claimed (fuel: `cached_eq_fresh` says the results agree whenever the empty-backend run ends). Not modelled: "
               "cache_scope / cache=False options, containers other than lazy `+`, several arguments (C15), executors, pickling.")
@@ -724,7 +730,7 @@ def run(ctx):
             allow_catch = rng.random() < 0.25
             h = gen_history(rng, rng.randrange(2, nsteps_max + 1), allow_catch)
             cases.append(("gen%d" % idx, h, dict(source="generated", catch=allow_catch)))
-        budget = 55 if ctx.tier == "quick" else 500
+        budget = 42 if ctx.tier == "quick" else 460
         done = []
         for k, (label, h, tags) in enumerate(cases):
             done.append((label, h, tags, run_real(env, h)))
